@@ -8,7 +8,7 @@ literally:
   window: never more than max_inflight PUBLISH packets written and not yet finally acknowledged; the counter equals the
           number of messages in a wait state and stays in 0..max_inflight; a slot is never idle while a message is queued
           on an established connection.
-A scenario: window w, w + k messages published (k queued), then the broker acknowledges the in-flight messages oldest
+A scenario: window w, w + k messages published (k = 0, 1, 2 queued), then the broker acknowledges the in-flight messages oldest
 first, one packet per loop_read(); the first `depth` on_publish callbacks each publish `fan` further messages (QoS 1 or
 2, mixed); every acknowledgement the broker owes is sent until nothing is outstanding.
 """
@@ -102,7 +102,7 @@ def run_scenario(window, qoses, depth, fan, nested_qos, api=2):
 
 def scenarios(thorough):
     for window in (1, 2, 3):
-        for k in (1, 2):
+        for k in (0, 1, 2):       # k = 0: the window exactly full, nothing queued when the acknowledgement arrives
             for base in ((1,), (2,), (1, 2)):
                 qoses = tuple(base[i % len(base)] for i in range(window + k))
                 for depth in (1, 2, 3):
